@@ -419,3 +419,31 @@ DERIV_BEZIER = Contract(
     canary="result[0, 0] == 0",
 )
 ALL.append((DERIV_BEZIER, "heavy", "Calculus.derivate_nonrational_bezier", None))
+
+
+# ---- heavy.Math.factorial / comb: exact integer arithmetic for every argument --------------------------------------------------
+FACT = z3.Function("FACT", z3.IntSort(), z3.IntSort())       # ghost: n! by its recursion
+
+
+def fact_axioms(eng, st):
+    k = z3.Int("fk")
+    st.assume(z3.ForAll([k], z3.Implies(k < 2, FACT(k) == 1), patterns=[FACT(k)]))
+    st.assume(z3.ForAll([k], z3.Implies(k >= 2, FACT(k) == k * FACT(k - 1)), patterns=[FACT(k)]))
+    st.assume(z3.ForAll([k], FACT(k) >= 1, patterns=[FACT(k)]))
+
+
+def h_factorial(eng, st, args, kw, node, exits):
+    return Num(FACT(args[0].z), True)        # by the contract FACTORIAL proved below
+
+
+FACTORIAL = Contract(
+    "heavy.Math.factorial", params={"number": "int"}, setup=fact_axioms, spec={"fact": lambda se, k: Num(FACT(k.z), True)},
+    ensures=["result == fact(number)", "result >= 1"], raises={},
+    loops={0: dict(invariant=["2 <= it0 and it0 <= number + 1", "prod == fact(it0 - 1)"], decreases="number + 1 - it0")},
+    covers=["number == 0", "number == 5", "number < 0"], canary="result == fact(number) + 1")
+COMB = Contract(
+    "heavy.Math.comb", params={"upper": "int", "lower": "int"}, setup=fact_axioms, spec={"fact": lambda se, k: Num(FACT(k.z), True)},
+    consts={"Math": E.Const(("module", "Math"))}, calls={"static:Math.factorial": CallSpec(h_factorial)},
+    # exactly the quotient of the factorials in exact integer arithmetic (that this quotient is the binomial coefficient is arithmetic, not code)
+    ensures=["result == fact(upper) // (fact(lower) * fact(upper - lower))"], raises={}, canary="result == 0")
+ALL += [(FACTORIAL, "heavy", "Math.factorial", None), (COMB, "heavy", "Math.comb", None)]
